@@ -8,10 +8,20 @@ EXTENDS Naturals, Sequences, TLC, Json, IOUtils
 Rec == ndJsonDeserialize(IOEnv.TRACE)
 VARIABLE l
 vars == <<l>>
+(* A difference is "payload_only" when all four circuits report no panic (first output 0) and differ only  *)
+(* within the 160 bits that carry reason and location of a panic: those bits have no meaning without a      *)
+(* panic (the documented decoding ignores them).  Anything else is an observable difference.                *)
+Differs(r, c) == {p \in 1..Len(r.on_ssa) : r[c][p] # r.on_ssa[p]}
+PayloadOnly(r) ==
+    /\ \A c \in {"on_ssa", "on_reg", "off_ssa", "off_reg"} : Len(r[c]) = Len(r.on_ssa) /\ r[c][1] = 0
+    /\ \A c \in {"on_reg", "off_ssa", "off_reg"} : Differs(r, c) \subseteq 2..161
 Judge(ev) ==
     LET bad == {i \in 1..Len(ev.runs) :
                   \E c \in {"on_reg", "off_ssa", "off_reg"} : ev.runs[i][c] # ev.runs[i].on_ssa}
-    IN  IF bad = {} THEN <<>> ELSE <<[input |-> ev.runs[CHOOSE i \in bad : TRUE].input]>>
+        obs == {i \in bad : ~PayloadOnly(ev.runs[i])}
+    IN  IF bad = {} THEN <<>>
+        ELSE IF obs # {} THEN <<[kind |-> "observable", input |-> ev.runs[CHOOSE i \in obs : TRUE].input]>>
+        ELSE <<[kind |-> "payload_only", input |-> ev.runs[CHOOSE i \in bad : TRUE].input]>>
 Init == l = 1
 Next == /\ l <= Len(Rec)
         /\ LET bad == Judge(Rec[l]) IN bad # <<>> => PrintT(<<"MISMATCH", l, ToJson(bad)>>)
